@@ -146,11 +146,13 @@ def apply_directives(body, directives, unit):
         if key == "post":
             body.insert(toks[body.close].start, "\n" + val + "\n")
             continue
-        m = re.fullmatch(r"loop(\d+)\.(spec|via|viaval|viawhile|iter|top|end|after|before)", key)
+        m = re.fullmatch(r"loop(\d+)\.(spec|via|viaval|viawhile|iter|top|end|after|before)(\?)?", key)
         if m:
             if loops is None:
                 loops = body.loops()
             k = int(m.group(1))
+            if k >= len(loops) and m.group(3):
+                continue        # `loopK.x?`: a loop a repair introduced; without it the body is judged as it stands
             if k >= len(loops):
                 raise LostAnchor(f"{body.qual}: loop #{k} not found ({len(loops)} loops)")
             kw, lo, lc = loops[k]
